@@ -31,7 +31,7 @@ pub struct C10;
 fn hop_url() -> BoxedStrategy<UrlSpec> {
     urlgen::url_spec(true, true)
         .prop_map(|mut u| {
-            u.fragment = None;
+            // (fragments stay: a Location may carry one, and it must never reach a request line)
             // https through a proxy to an IPv6 literal is excluded (see C08)
             if u.https {
                 if let HostSpec::V6(_) = u.host {
